@@ -40,6 +40,14 @@ where
             });
             ev.rec_s(&mut || tbs(x.x_checked_rem_int(i)));
             ev.rec_s(&mut || tbs(Fixed::checked_rem_int(x, i)));
+            // deprecated wrapping_/overflowing_rem_int: inherent methods and the trait's provided methods
+            ev.rec_v(&mut || tb(x.x_wrapping_rem_int(i)));
+            ev.rec_o(&mut || tbo(x.x_overflowing_rem_int(i)));
+            #[allow(deprecated)]
+            {
+                ev.rec_v(&mut || tb(Fixed::wrapping_rem_int(x, i)));
+                ev.rec_o(&mut || tbo(Fixed::overflowing_rem_int(x, i)));
+            }
             ev.rec_v(&mut || tb(x.rem_euclid_int(i)));
             ev.rec_s(&mut || tbs(x.checked_rem_euclid_int(i)));
             ev.rec_v(&mut || tb(x.wrapping_rem_euclid_int(i)));
